@@ -172,6 +172,32 @@ where
 
         // solve time so far (includes setup)
         self.solve_time = timers.total_time().as_secs_f64();
+
+        #[cfg(feature = "verif-hooks")]
+        if crate::verif_hooks::observer::enabled() {
+            use crate::verif_hooks::observer::*;
+            let f = |v: T| v.to_f64().unwrap_or(f64::NAN);
+            push(Event::Pass(Box::new(IterSnapshot {
+                x: variables.x.iter().map(|&v| f(v)).collect(),
+                s: variables.s.iter().map(|&v| f(v)).collect(),
+                z: variables.z.iter().map(|&v| f(v)).collect(),
+                tau: f(variables.τ),
+                kappa: f(variables.κ),
+                mu: f(self.μ),
+                sigma: f(self.sigma),
+                step_length: f(self.step_length),
+                iterations: self.iterations,
+                cost_primal: f(self.cost_primal),
+                cost_dual: f(self.cost_dual),
+                res_primal: f(self.res_primal),
+                res_dual: f(self.res_dual),
+                res_primal_inf: f(self.res_primal_inf),
+                res_dual_inf: f(self.res_dual_inf),
+                gap_abs: f(self.gap_abs),
+                gap_rel: f(self.gap_rel),
+                ktratio: f(self.ktratio),
+            })));
+        }
     }
 
     fn check_termination(
